@@ -111,6 +111,14 @@ func (p *partSUT) ctx(key string) context.Context {
 type partSpec struct {
 	name, match string
 	k           int
+	obj         string // the partition object's own Name(); the lookup strategy is keyed by the caller's map key, not by this
+}
+
+func (s partSpec) objName() string {
+	if s.obj != "" {
+		return s.obj
+	}
+	return s.name
 }
 
 func buildPartSUT(kind string, specs []partSpec, L int) (*partSUT, error) {
@@ -119,7 +127,7 @@ func buildPartSUT(kind string, specs []partSpec, L int) (*partSUT, error) {
 	if kind == "lookup" {
 		parts := map[string]*strategy.LookupPartition{}
 		for _, s := range specs {
-			parts[s.name] = strategy.NewLookupPartitionWithMetricRegistry(s.name, float64(s.k)/32, 1, reg)
+			parts[s.name] = strategy.NewLookupPartitionWithMetricRegistry(s.objName(), float64(s.k)/32, 1, reg)
 		}
 		var err error
 		p.lookup, err = strategy.NewLookupPartitionStrategyWithMetricRegistry(parts, nil, int32(L), reg)
@@ -138,7 +146,7 @@ func buildPartSUT(kind string, specs []partSpec, L int) (*partSUT, error) {
 
 func (p *partSUT) add(s partSpec) bool {
 	if p.kind == "lookup" {
-		return p.lookup.AddPartition(s.name, strategy.NewLookupPartitionWithMetricRegistry(s.name, float64(s.k)/32, 1, core.EmptyMetricRegistryInstance))
+		return p.lookup.AddPartition(s.name, strategy.NewLookupPartitionWithMetricRegistry(s.objName(), float64(s.k)/32, 1, core.EmptyMetricRegistryInstance))
 	}
 	pp := strategy.NewPredicatePartitionWithMetricRegistry(s.name, float64(s.k)/32, matchers.StringPredicateMatcher(s.match, false), core.EmptyMetricRegistryInstance)
 	p.preds[s.name] = pp
@@ -149,6 +157,8 @@ func drawPartSpecs(t *Tape, kind string) (init []partSpec, later []partSpec) {
 	n := 1 + t.Intn(4, "partitions")
 	left := 32
 	names := []string{"a", "b", "c", "d", "e", "f"}
+	// lookup: partition objects named differently from the keys they are registered under (tenant ids -> tier labels)
+	tiers := kind == "lookup" && t.Chance(40, "object-names-differ")
 	mk := func(i int) partSpec {
 		k := 0
 		if left > 0 {
@@ -156,6 +166,9 @@ func drawPartSpecs(t *Tape, kind string) (init []partSpec, later []partSpec) {
 		}
 		left -= k
 		s := partSpec{name: names[i], match: names[i], k: k}
+		if tiers {
+			s.obj = []string{"gold", "silver"}[i%2]
+		}
 		if kind == "predicate" && i > 0 && t.Chance(25, "dup-predicate") {
 			s.match = names[i-1] // a second predicate matching the same requests: the first registered must be charged
 		}
@@ -399,27 +412,54 @@ func sutLimit(p *partSUT) int {
 // ---- concurrent mode: porcupine against the same gate ----
 
 type pgState struct {
-	L    int
-	busy int
-	bb   [7]int // per bin (index in specs; last used = unknown)
+	L      int
+	busy   int
+	bb     [8]int   // per bin (index in specs; then unknown; then the dynamically added partition)
+	dyn    bool     // the dynamic partition has been added
+	tokBin [24]int8 // bin charged for token i (acquires of the dynamic key: decided at the linearization point)
 }
 
 type pgIn struct {
-	kind int // 0 acquire(bin) 1 release(bin) 2 setlimit(v)
-	bin  int // -1 = no matching partition
+	kind int // 0 acquire(bin) 1 release(bin) 2 setlimit(v) 3 add the dynamic partition
+	bin  int // -1 = no matching partition; -2 = the dynamic key (bin depends on whether the partition exists yet)
 	v    int
+	tok  int
 }
 
 func runC03Concurrent(r *Run, sut *partSUT, g *refGate, specs []partSpec) {
 	t := r.T
 	s := r.NewSched()
-	// static partition set in this mode; bin index = position in specs, unknown = len(specs)
+	// bin index = position in specs, unknown = len(specs), dynamically added partition = len(specs)+1
 	ks := make([]int, 0, 7)
 	for _, sp := range specs {
 		ks = append(ks, sp.k)
 	}
 	ks = append(ks, 0) // unknown
+	// one partition ("dyn") may be added while the others are in use, possibly by two tasks at once
+	sumK := 0
+	for _, sp := range specs {
+		sumK += sp.k
+	}
+	dynK := t.Intn(minInt(32-sumK, 12)+1, "dyn-k")
+	dynIdx := len(ks)
+	ks = append(ks, dynK)
+	unknownIdx := len(specs)
+	dynSpec := partSpec{name: "dyn", match: "dyn", k: dynK}
+	var dynPred *strategy.PredicatePartition
+	if sut.kind != "lookup" {
+		dynPred = strategy.NewPredicatePartitionWithMetricRegistry("dyn", float64(dynK)/32, matchers.StringPredicateMatcher("dyn", false), core.EmptyMetricRegistryInstance)
+	}
+	addDyn := func() bool {
+		if sut.kind == "lookup" {
+			return sut.add(dynSpec) // a fresh object per call, same key
+		}
+		return sut.pred.AddPartition(dynPred) // the same object: a second registration must be refused
+	}
+	nextTok := 0
 	binOf := func(key string) int {
+		if key == "dyn" {
+			return -2
+		}
 		for i, sp := range specs {
 			if sp.match == key {
 				return i
@@ -438,22 +478,42 @@ func runC03Concurrent(r *Run, sut *partSUT, g *refGate, specs []partSpec) {
 			switch in.kind {
 			case 0:
 				ok := output.(bool)
-				if in.bin < 0 {
+				bin := in.bin
+				if bin == -2 {
+					switch {
+					case st.dyn:
+						bin = dynIdx
+					case sut.kind == "lookup":
+						bin = unknownIdx
+					default:
+						bin = -1
+					}
+				}
+				if bin < 0 {
 					return !ok, st
 				}
-				admit := st.busy < st.L || st.bb[in.bin] < share(st.L, ks[in.bin])
+				admit := st.busy < st.L || st.bb[bin] < share(st.L, ks[bin])
 				if ok != admit {
 					return false, st
 				}
 				if ok {
 					st.busy++
-					st.bb[in.bin]++
+					st.bb[bin]++
+					st.tokBin[in.tok] = int8(bin)
 				}
 				return true, st
 			case 1:
+				bin := int(st.tokBin[in.tok])
 				st.busy--
-				st.bb[in.bin]--
-				return st.busy >= 0 && st.bb[in.bin] >= 0, st
+				st.bb[bin]--
+				return st.busy >= 0 && st.bb[bin] >= 0, st
+			case 3:
+				added := output.(bool)
+				if added == st.dyn {
+					return false, st // true exactly when the partition did not exist yet
+				}
+				st.dyn = true
+				return true, st
 			default:
 				st.L = maxInt(1, in.v)
 				return true, st
@@ -462,7 +522,7 @@ func runC03Concurrent(r *Run, sut *partSUT, g *refGate, specs []partSpec) {
 		Equal: func(a, b interface{}) bool { return a.(pgState) == b.(pgState) },
 	}
 	nTasks := 2 + t.Intn(3, "tasks")
-	keys := []string{"a", "b", "c", "zz"}
+	keys := []string{"a", "b", "c", "zz", "dyn", "dyn"}
 	type histOp struct {
 		op *OpRec
 		in pgIn
@@ -473,6 +533,7 @@ func runC03Concurrent(r *Run, sut *partSUT, g *refGate, specs []partSpec) {
 		type rd struct {
 			key string
 			set bool
+			add bool
 			v   int
 		}
 		var rds []rd
@@ -480,6 +541,8 @@ func runC03Concurrent(r *Run, sut *partSUT, g *refGate, specs []partSpec) {
 			x := rd{key: keys[t.Intn(len(keys), "key")]}
 			if t.Chance(20, "set?") {
 				x.set, x.v = true, []int{1, 2, 3, 0, 6}[t.Intn(5, "v")]
+			} else if t.Chance(25, "add-dyn?") {
+				x.add = true
 			}
 			rds = append(rds, x)
 		}
@@ -493,9 +556,20 @@ func runC03Concurrent(r *Run, sut *partSUT, g *refGate, specs []partSpec) {
 					tk.End(nil)
 					continue
 				}
+				if x.add {
+					tk.Begin("add-partition", "dyn")
+					h := &histOp{op: tk.curOp, in: pgIn{kind: 3}}
+					hist = append(hist, h)
+					added := addDyn()
+					tk.End(added)
+					r.Probe("concurrent_add_partition")
+					continue
+				}
 				b := binOf(x.key)
+				id := nextTok
+				nextTok++
 				tk.Begin("acquire", x.key)
-				h := &histOp{op: tk.curOp, in: pgIn{kind: 0, bin: b}}
+				h := &histOp{op: tk.curOp, in: pgIn{kind: 0, bin: b, tok: id}}
 				hist = append(hist, h)
 				tok, ok := sut.strat().TryAcquire(sut.ctx(x.key))
 				tk.End(ok)
@@ -503,7 +577,7 @@ func runC03Concurrent(r *Run, sut *partSUT, g *refGate, specs []partSpec) {
 					continue
 				}
 				tk.Begin("release", x.key)
-				h2 := &histOp{op: tk.curOp, in: pgIn{kind: 1, bin: b}}
+				h2 := &histOp{op: tk.curOp, in: pgIn{kind: 1, bin: b, tok: id}}
 				hist = append(hist, h2)
 				tok.Release()
 				tk.End(nil)
@@ -547,6 +621,10 @@ func runC03Concurrent(r *Run, sut *partSUT, g *refGate, specs []partSpec) {
 			if !ok {
 				refused++
 			}
+		}
+		if h.in.kind == 3 {
+			added, _ := h.op.Out.(bool)
+			out = added
 		}
 		ops = append(ops, porcupine.Operation{ClientId: h.op.Task, Input: h.in, Output: out, Call: int64(h.op.Call), Return: ret})
 	}
